@@ -7,7 +7,7 @@ CONSTANTS
   ConsumerSet = {"c1", "c2"}
   Coords = {"A", "X"}
   OpKinds = {"CreateStream", "DeleteStream", "Pause", "Resume", "SetReadonly", "ShrinkISR", "ExpandISR", "ChangeLeader", "PublishActivity"}
-  Variants = {"plain", "custom"}
+  Variants = {"custom"}
   MaxOps = 4
   MaxSnaps = 2
   MaxRestarts = 1
